@@ -60,6 +60,12 @@ def run():
             lines = [l for l in lines if not (l["t"] == "%" and l["map"] == 0x6D31)] + big_map_lines(rng, rng.choice([60, 130, 260]))
             if not any(l["t"] == "M" for l in lines):
                 lines.append(semlib.L("M", semlib.nm(w.zones[0]), wild=True, mapid=0x6D31))
+        # IPv6 subnets with long prefixes (/96 ... /128): their range points carry masks in the range IPv4 points use
+        lines += [semlib.net(rng.choice([1, 2, 3]), c, 0x6D31) for c in rng.sample(
+            ["2001:db8:0:1::5:100/120", "2001:db8::7/128", "2001:db8:aaaa::/96", "2001:db8:0:2::/127", "2001:db8:bbbb::1:0/112", "fd00::1/128"], 3)
+            if not any(l["t"] == "%" and l["map"] == 0x6D31 and l.get("_net") == c for l in lines)]
+        if not any(l["t"] == "M" for l in lines):
+            lines.append(semlib.L("M", semlib.nm(w.zones[0]), wild=True, mapid=0x6D31))
         s = semlib.Script()
         s.file(lines, rng)
         text = s.rows[0]["text"]
